@@ -442,6 +442,19 @@ def r10_json_spelling_in_style_serializers(chk: Check) -> None:
             chk.violation("C06.R10", fn, f"{fn.name}: list items keep their JSON spelling",
                           f"`{unparse(c, 50)}` stringifies the generated items with Python's str(): a list `[True, None, False]` under this style is sent as `True,None,False` - the later jsonify step does not look inside the already joined string, while the same values as scalars (or exploded) go out as `true` / `null`",
                           fn.loc(c))
+        # a single generated value pasted into an f-string (`f".{new}"` with `new = item[name]`) is str()-ed as well
+        gen_vars = {name_of(b, "v") for n_, b in pfind("$v = $i[$k]", fn.node) if isinstance(b["i"], ast.Name) and b["i"].id in ps}
+        gen_vars.discard(None)
+        for js in (x for x in walk_body(fn.node) if isinstance(x, ast.JoinedStr)):
+            raw1 = [fv for fv in js.values if isinstance(fv, ast.FormattedValue) and ((isinstance(fv.value, ast.Name) and fv.value.id in gen_vars) or (isinstance(fv.value, ast.Subscript) and isinstance(fv.value.value, ast.Name) and fv.value.value.id in ps))]
+            if raw1:
+                n += 1
+                chk.violation("C06.R10", fn, f"{fn.name}: list items keep their JSON spelling",
+                              f"`{unparse(js, 40)}` pastes the generated value with str(): a boolean path parameter under this style is sent as `.True` / `;flag=True`, while the array forms and the `simple` style give `true`",
+                              fn.loc(js))
+            elif any(isinstance(fv, ast.FormattedValue) and isinstance(fv.value, ast.Call) and any(isinstance(a_, ast.Name) and a_.id in gen_vars for a_ in fv.value.args) for fv in js.values):
+                n += 1
+                chk.ok("C06.R10", fn, f"{fn.name}: list items keep their JSON spelling", "pasted through a spelling helper", fn.loc(js))
         joins = [c for c in body_calls(fn) if last_attr(c) == "join"]
         for c in joins:
             # f"{name}={value}" inside the joined generator: the interpolated loop value is str()-ed by the f-string
